@@ -327,14 +327,20 @@ func (ch *channel) receivedSegData(rsd recSegData) {
 			for i := uint32(0); i < sdb.nrItems(); i++ {
 				if name == ch.masterTrName && ch.masterSegDuration == 0 {
 					// Evaluate the first two durations to see if they are consecutive with same duration. If not, drop the oldest one.
-					if sdb.items[1].seqNr != sdb.items[0].seqNr+1 || sdb.items[1].dur != sdb.items[0].dur {
+					if sdb.items[1].seqNr != sdb.items[0].seqNr+1 || sdb.items[1].dur != sdb.items[0].dur ||
+						sdb.items[1].dur == 0 { // A zero duration cannot become the segment duration
 						ch.segTimesGen.dropSeqNr(sdb.items[0].seqNr)
 						return
 					}
 					dur := sdb.items[1].dur
 					ch.mu.Lock()
-					ch.masterSegDuration = dur
 					rd := ch.trDatas[name]
+					if rd.timeScaleOut == 0 {
+						ch.mu.Unlock()
+						log.Error("master track has timescale 0")
+						return
+					}
+					ch.masterSegDuration = dur
 					ch.masterTimescale = rd.timeScaleOut
 					segTime0 := int64(sdb.items[0].dts)
 					seqNr0 := int64(sdb.items[0].seqNr)
